@@ -6,6 +6,11 @@ from .values import SBit, SInt, SLin, mkbit
 
 
 class SArith:
+    def __getattr__(self, k):
+        from .core import ModelGap
+
+        raise ModelGap("'SArith' proxy has no model of attribute '%s'" % k)
+
     def __init__(self, term, pyfn, operands, lo, hi):
         self.term, self.pyfn, self.operands, self.lo, self.hi = term, pyfn, operands, lo, hi
         self._bits = {}
